@@ -108,3 +108,9 @@ TEXT["C10"] = dict(text="Coq theorems over EVERY plan of engine operations and E
     "Correspondence + fault enumeration: the real entry points (udp/icmp v4+v6, tcp syn; SACK via the policy lab) over the simulated wire with one fault at every reachable (operation, k) x class.",
     note="PARTIAL: the lifecycle program abstracts the entry points' control flow by hand; goroutine termination is observed, not proved; faults below the Source/Sink seam are out of reach.",
     technique="Coq proof over an abstract lifecycle program (all plans, all faults) + exhaustive fault injection into the real entry points over a simulated wire")
+
+TEXT["C14"] = dict(text="Coq theorem for ANY access table: if every pair of conflicting accesses (same location, one a write, different thread instances, while the goroutines run) shares a lock, then under every interleaving and lock state no two conflicting accesses are ever enabled together; "
+    "the table regenerated from the Go source on this run satisfies the discipline (vm_compute over the finite table), hence no data race in the drivers, the parallel engine, the multi-query aggregator and the reverse-DNS fan-out. "
+    "Search for a failing schedule: the real code under Go's race detector over an unsynchronised pre-seeded wire.",
+    note="PARTIAL: syntactic lock regions; no alias analysis beyond receiver fields / captured variables / pointer arguments of inlined calls; foreign objects are single locations; the memory model is abstracted to lock mutual exclusion; the translator is trusted (its table is printed with source positions in Generated/Accesses.v).",
+    technique="Coq proof (lockset soundness over all interleavings) instantiated on an access table regenerated from the source by a translator; race detector only to exhibit schedules")
